@@ -57,6 +57,13 @@ impl super::Ipc for Socket<Blocking> {
             .as_ref()
             .ok_or_else(|| Error(String::from("Receive channel side missing")))?;
         let buf = r.recv_timeout(std::time::Duration::from_secs(1))?;
+        if buf.len() > msg.len() {
+            return Err(Error(format!(
+                "received message of {} bytes does not fit the {} byte buffer",
+                buf.len(),
+                msg.len()
+            )));
+        }
         msg[..buf.len()].copy_from_slice(&buf);
         Ok((buf.len(), ()))
     }
@@ -84,6 +91,13 @@ impl super::Ipc for Socket<Nonblocking> {
             .as_ref()
             .ok_or_else(|| Error(String::from("Receive channel side missing")))?;
         let buf = r.try_recv()?;
+        if buf.len() > msg.len() {
+            return Err(Error(format!(
+                "received message of {} bytes does not fit the {} byte buffer",
+                buf.len(),
+                msg.len()
+            )));
+        }
         msg[..buf.len()].copy_from_slice(&buf);
         Ok((buf.len(), ()))
     }
